@@ -181,7 +181,7 @@ func scanSizeCond(c *core.Ctx) []ob {
 		keys = append(keys, k)
 	}
 	sort.Strings(keys)
-	nTypes, nCond := 0, 0
+	nTypes, nCond, nFields := 0, 0, 0
 	for _, k := range keys {
 		p := byType[k]
 		if p.size == nil || p.write == nil {
@@ -189,6 +189,33 @@ func scanSizeCond(c *core.Ctx) []ob {
 		}
 		nTypes++
 		gs, gw := scCollect(p.pk.TypesInfo, p.size), scCollect(p.pk.TypesInfo, p.write)
+		// the two methods account for the same parts: a field that only one of them mentions
+		{
+			var onlyS, onlyW []string
+			// only parts that have a size of their own (a BinarySize method): fixed-width fields are constants in BinarySize
+			sized := scSizedFields(p.pk.TypesInfo, p.size)
+			for f := range gs {
+				if _, ok := gw[f]; !ok && sized[f] {
+					onlyS = append(onlyS, f)
+				}
+			}
+			for f := range gw {
+				if _, ok := gs[f]; !ok && sized[f] {
+					onlyW = append(onlyW, f)
+				}
+			}
+			sort.Strings(onlyS)
+			sort.Strings(onlyW)
+			if len(gs) > 0 && len(gw) > 0 {
+				nFields++
+				key := fmt.Sprintf("SIZECOND:%s#fields", k)
+				if len(onlyS) == 0 && len(onlyW) == 0 {
+					out = append(out, okOb("SIZECOND", key, c.Rel(p.size.Pos()), fmt.Sprintf("BinarySize and WriteTo mention the same %d receiver fields", len(gs)), true))
+				} else {
+					out = append(out, violOb("SIZECOND", key, c.Rel(p.size.Pos()), fmt.Sprintf("%s: BinarySize and WriteTo do not account for the same parts of the object: only BinarySize mentions %v, only WriteTo mentions %v", k, onlyS, onlyW)))
+				}
+			}
+		}
 		fields := make([]string, 0, len(gs))
 		for f := range gs {
 			if _, ok := gw[f]; ok {
@@ -222,17 +249,43 @@ func scanSizeCond(c *core.Ctx) []ob {
 	}
 	c.Stats["sizecond_types"] = nTypes
 	c.Stats["sizecond_fields"] = nCond
+	c.Stats["sizecond_fieldsets"] = nFields
 	return out
 }
 
 func init() {
 	core.Register(&core.Rule{Name: "SIZECOND", Props: []string{"C08"},
-		Doc: "for every type with BinarySize and WriteTo, a receiver field that is conditional in both methods (optional sub-object, seed of the compressed form) is conditional on the same presence tests in both",
+		Doc: "for every type with BinarySize and WriteTo, a receiver field that is conditional in both methods (optional sub-object, seed of the compressed form) is conditional on the same presence tests in both, and both methods mention the same sized parts (fields whose type has its own BinarySize)",
 		Run: func(c *core.Ctx) []ob {
 			out := scanSizeCond(c)
 			out = append(out, control(c, "SIZECOND", scanSizeCond, "lvfixture.Opt.Extra")...)
 			out = append(out, core.Floor("SIZECOND", nil, "types with BinarySize and WriteTo", c.Stats["sizecond_types"], 20)...)
 			out = append(out, core.Floor("SIZECOND", nil, "fields conditional in both methods", c.Stats["sizecond_fields"], 3)...)
+			out = append(out, core.Floor("SIZECOND", nil, "types whose sized parts are compared", c.Stats["sizecond_fieldsets"], 12)...)
 			return out
 		}})
+}
+
+// scSizedFields: the fields of the receiver's struct whose type (or a pointer to it) has a BinarySize method.
+func scSizedFields(info *types.Info, fd *ast.FuncDecl) map[string]bool {
+	res := map[string]bool{}
+	if fd.Recv == nil || len(fd.Recv.List) == 0 {
+		return res
+	}
+	t := info.TypeOf(fd.Recv.List[0].Type)
+	st := structOf(t)
+	if st == nil {
+		return res
+	}
+	for i := 0; i < st.NumFields(); i++ {
+		f := st.Field(i)
+		for _, ft := range []types.Type{f.Type(), types.NewPointer(f.Type())} {
+			if o, _, _ := types.LookupFieldOrMethod(ft, true, f.Pkg(), "BinarySize"); o != nil {
+				if _, isFn := o.(*types.Func); isFn {
+					res[f.Name()] = true
+				}
+			}
+		}
+	}
+	return res
 }
